@@ -147,6 +147,8 @@ fn kind_name(k: &OpKind) -> String {
         OpKind::AddViaParam(_) => "add_via_param".into(),
         OpKind::Attack(_) => "attack".into(),
         OpKind::ApplyViaParam(op, _) => format!("apply({op}=)"),
+        OpKind::TransferFrom(op, ..) => format!("transfer({op}=*)"),
+        OpKind::CompareContents(..) => "compare_contents".into(),
         OpKind::PairShow(_) => "pair_show".into(),
         OpKind::PairSet(..) => "pair_set".into(),
         OpKind::PairTie => "pair_tie".into(),
@@ -164,6 +166,17 @@ fn build_world() -> Result<Interpreter<'static>, String> {
 /// Reads every cell of the world and checks the content against the declared type (oracle T) and
 /// optionally against the model heap through every alias path (oracle A).
 fn check_world(interp: &Interpreter, model: Option<&Model>, path_codes: &[Vec<Option<Code>>]) -> Option<(String, String)> {
+    for name in EXTRA_CELLS {
+        if let Some(Variable::Mut(m)) = interp.get_variable(name) {
+            let content = m.variable.read().map(|g| g.clone()).unwrap_or_else(|p| p.into_inner().clone());
+            if !inhabits(&content, &m.var_type) {
+                return Some((
+                    "type-violation".into(),
+                    format!("cell {name} declared `mut {}` holds {}", ctype(&m.var_type), cvar(&content)),
+                ));
+            }
+        }
+    }
     for (i, spec) in CELLS.iter().enumerate() {
         let Some(Variable::Mut(m)) = interp.get_variable(spec.name) else {
             return Some(("harness".into(), format!("cell {} missing", spec.name)));
@@ -500,6 +513,7 @@ pub fn run_concurrent(sc: &Scenario) -> RunReport {
         }
         let mut hist = hist;
         let end = shared.stamp.load(Ordering::SeqCst);
+        let _ = &sc;
         for (i, spec) in CELLS.iter().enumerate() {
             if spec.kind == Kind::CellOfInt {
                 continue;
@@ -510,7 +524,10 @@ pub fn run_concurrent(sc: &Scenario) -> RunReport {
             }
         }
         // oracle L: per-cell linearizability against the sequential reference
-        let repointed = hist.iter().any(|h| h.op.cell == CC && matches!(h.op.kind, OpKind::Set(Val::Ref(_))));
+        let repointed = hist.iter().any(|h| h.op.cell == CC && matches!(h.op.kind, OpKind::Set(Val::Ref(_))))
+            // `p op= *q` is two atomic steps (read q, then update p): the value read is not recorded, so
+            // the int cells are judged for deadlock / panic / declared type only in such runs
+            || hist.iter().any(|h| matches!(h.op.kind, OpKind::TransferFrom(..)));
         for cell in 0..CELLS.len() {
             if repointed && (CELLS[cell].kind == Kind::Int || cell == CC) {
                 // `*cc` is a moving alias: which int cell an operation through it hit is not recorded
@@ -518,7 +535,7 @@ pub fn run_concurrent(sc: &Scenario) -> RunReport {
             }
             let entries: Vec<&HistEntry> = hist
                 .iter()
-                .filter(|h| h.op.cell == cell && !matches!(h.op.kind, OpKind::Pull | OpKind::SelfShow | OpKind::SelfSet(_) | OpKind::SelfTie | OpKind::MkFresh(_) | OpKind::Attack(_) | OpKind::PairShow(_) | OpKind::PairSet(..) | OpKind::PairTie))
+                .filter(|h| h.op.cell == cell && !matches!(h.op.kind, OpKind::Pull | OpKind::SelfShow | OpKind::SelfSet(_) | OpKind::SelfTie | OpKind::MkFresh(_) | OpKind::Attack(_) | OpKind::PairShow(_) | OpKind::PairSet(..) | OpKind::PairTie | OpKind::CompareContents(..)))
                 .collect();
             if entries.len() <= 1 {
                 continue;
@@ -713,6 +730,8 @@ pub const SHARED_PROGS: &[&str] = &[
     "a := [true, true, false]~ $&&; b := [false, true]~ $||; c := [12, 10]~ $&; d := [1, 2, 4]~ $|; (a, b, c, d)",
     "p := [2, 3, 4]~ $*; q := [1.5, 2.0]~ $+; r := [1, 2, 3]~ $100 (acc: int, x: int) -> int { return acc - x }; (p, q, r)",
     "s := std.operators.int_sum([1, 2, 3]~); t := std.operators.string_sum([\"a\", \"b\"]~); u := std.operators.all([true, false]~); (s, t, u, std.len([1, 2]))",
+    "c := mut 7; deep := mut [[[[c]]]]; a := std.convert.to_string(deep); std.io.print(deep); t := ((((c, 1), 2), 3), [[c]]); (a, std.convert.to_string(t))",
+    "k := mut \"s\"; n1 := mut [k]; n2 := mut [n1]; n3 := mut [n2]; n4 := mut [n3]; (std.convert.to_string(n4), std.convert.to_string([[[[n2]]]]))",
     "cnt := mut 0; it := () -> (bool, int) { cnt += 1; return (*cnt <= 4, *cnt) }; ev := it ? (x: int) -> bool { return x % 2 == 0 }; sq := ev @ (x: int) -> int { return x * x }; (sq $], *cnt)",
 ];
 
@@ -751,10 +770,18 @@ pub fn gen_concurrent(seed: u64, boot_seed: u64, run: u64) -> Scenario {
         _ => vec![],
     };
     let repoint = rng.chance(1, 7);
-    let focus = if repoint { vec![9, 0, 9, 7] } else { focus };
+    let transfer_heavy = !repoint && rng.chance(1, 7);
+    let focus = if repoint {
+        vec![9, 0, 9, 7]
+    } else if transfer_heavy {
+        vec![0, 7, 8][..2 + rng.below(2)].to_vec()
+    } else {
+        focus
+    };
     let cfg = GenCfg {
         concurrent: true,
         repoint,
+        transfer_heavy,
         fail_rate: [0, 100, 300][rng.below(3)],
         cells: focus,
         allow_show: rng.chance(2, 3),
@@ -779,6 +806,7 @@ pub fn gen_sequential(seed: u64, boot_seed: u64, run: u64) -> Scenario {
     let cfg = GenCfg {
         concurrent: false,
         repoint: false,
+        transfer_heavy: false,
         fail_rate: [0, 150, 400][rng.below(3)],
         cells: focus,
         allow_show: true,
